@@ -82,7 +82,13 @@ def project(line):
     return vlib.collapse_errors(line)
 
 
-_default = default_oracle(project)
+def project_kind(line):
+    """error payloads dropped, error kinds kept: the statement names the failure classes (bad offset / missing NUL / not UTF-8)"""
+    import re
+    return re.sub(r"E:(\w+)(\([^)]*\))?", r"E:\1", line)
+
+
+_default = default_oracle(project_kind)
 
 
 def py_valid(b):
